@@ -48,7 +48,9 @@ def run_variant(prop: str, v: Dict[str, Any], repo: str) -> Dict[str, Any]:
             path = os.path.join(scratch, e["file"])
             with open(path) as fh:
                 src = fh.read()
-            if src.count(e["old"]) != 1:
+            if e.get("all") and src.count(e["old"]) >= 1:
+                pass  # a rename: every occurrence is replaced
+            elif src.count(e["old"]) != 1:
                 res["status"] = "stale-recipe"
                 res["detail"] = f"`{e['old'][:60]}` occurs {src.count(e['old'])} times in {e['file']}"
                 return res
@@ -82,17 +84,72 @@ def run_variant(prop: str, v: Dict[str, Any], repo: str) -> Dict[str, Any]:
     return res
 
 
+def run_alpha(prop: str, repo: str) -> Dict[str, Any]:
+    """Neutrality: rename the local variables of every function of the package (upsa/alpha.py, a behaviour-preserving
+    rewrite) and run the check on the result; the (rule, function) pairs it reports must be those of the unchanged
+    tree. A difference means some rule keys on a spelling."""
+    from .alpha import alpha_rename
+
+    res: Dict[str, Any] = {"id": "neutral-alpha-rename", "kind": "neutral", "expect": prop, "status": "?"}
+    scratch = tempfile.mkdtemp(prefix=f"upsa_{prop}_alpha_")
+    try:
+        shutil.copytree(os.path.join(repo, "unified_planning"), os.path.join(scratch, "unified_planning"), ignore=_ignore)
+        renamed = 0
+        for root, _dirs, files in os.walk(os.path.join(scratch, "unified_planning")):
+            if "generated" in root:
+                continue
+            for fn in files:
+                if fn.endswith(".py"):
+                    path = os.path.join(root, fn)
+                    with open(path) as fh:
+                        src = fh.read()
+                    new, k = alpha_rename(src)
+                    compile(new, path, "exec")
+                    renamed += k
+                    with open(path, "w") as fh:
+                        fh.write(new)
+        res["renamed_occurrences"] = renamed
+        env = dict(os.environ)
+        env["UPSA_EVIDENCE_DIR"] = os.path.join(scratch, "evidence")
+
+        def keys_of(tree: str):
+            cp = subprocess.run([sys.executable, "-B", "-m", "upsa.cli", prop, "--repo", tree, "--tier", "quick", "--no-selftest", "--dump-keys"], cwd=VERIF, env=env, capture_output=True, text=True, timeout=300)
+            ks = sorted((k["rule"], k["function"]) for k in (json.loads(l) for l in cp.stdout.splitlines() if l.startswith("{")))
+            return cp.returncode, ks, cp.stdout
+
+        base_tree = tempfile.mkdtemp(prefix=f"upsa_{prop}_base_")
+        try:
+            shutil.copytree(os.path.join(repo, "unified_planning"), os.path.join(base_tree, "unified_planning"), ignore=_ignore)
+            rc0, k0, _ = keys_of(base_tree)
+        finally:
+            shutil.rmtree(base_tree, ignore_errors=True)
+        rc1, k1, out1 = keys_of(scratch)
+        res["exit"] = rc1
+        if rc1 == 2:
+            res["status"] = "analysis-error"
+            res["detail"] = "after renaming locals: " + out1[-300:]
+        elif k0 != k1:
+            res["status"] = "STILL-REPORTED"
+            extra = [k for k in k1 if k not in k0]
+            gone = [k for k in k0 if k not in k1]
+            res["detail"] = f"after renaming locals the check reports {extra[:3]} and no longer reports {gone[:3]}"
+        else:
+            res["status"] = "silent"
+    finally:
+        shutil.rmtree(scratch, ignore_errors=True)
+    return res
+
+
 def run_selftest(prop: str, rep: Report, seed: int) -> None:
     from . import index as index_mod
 
     variants = load_variants(prop)
-    if not variants:
-        rep.extra["selftest"] = {"variants_total": 0, "note": "no variant recipes for this property"}
-        return
     rnd = random.Random(seed)
     rnd.shuffle(variants)
     with ThreadPoolExecutor(max_workers=min(16, os.cpu_count() or 4)) as ex:
+        alpha = ex.submit(run_alpha, prop, index_mod.REPO)
         results = list(ex.map(lambda v: run_variant(prop, v, index_mod.REPO), variants))
+        results.append(alpha.result())
     fired = [r for r in results if r["status"] == "fired"]
     silent = [r for r in results if r["status"] == "silent"]
     bad = [r for r in results if r["status"] in ("MISSED", "STILL-REPORTED", "does-not-compile", "analysis-error")]
